@@ -215,7 +215,15 @@ func (p *Profile) genEvent(rng *rand.Rand, tr *Trace) M {
 			}
 			return M{"ev": "write", "p": EscS(path), "c": tr.AddContent([]byte(txt))}
 		}
-		return M{"ev": "write", "p": EscS(path), "c": tr.AddContent(content()), "old": rng.Intn(3) == 0}
+		wev := M{"ev": "write", "p": EscS(path), "c": tr.AddContent(content()), "old": rng.Intn(3) == 0}
+		if rng.Intn(5) == 0 {
+			// bytes that are in the object store already: an edit taken back to an earlier version, two files
+			// exchanging their contents, a copy of another file
+			if toks := storedContents(tr); len(toks) > 0 {
+				wev["c"] = toks[rng.Intn(len(toks))]
+			}
+		}
+		return wev
 	case "rewrite":
 		if len(wtFiles) == 0 {
 			return nil
@@ -677,4 +685,25 @@ func genValue(rng *rand.Rand, isName bool) string {
 		v = "x" + v
 	}
 	return v
+}
+
+// storedContents lists the content tokens of the blobs in the current object store whose bytes this trace knows
+// (sorted, for reproducibility).
+func storedContents(tr *Trace) []string {
+	var out []string
+	objs, _ := tr.Cur["objs"].(M)
+	for _, id := range sortedKeys(objs) {
+		tok, _ := objs[id].(string)
+		tr.R.T.mu.Lock()
+		o := tr.R.T.Objects[tok]
+		tr.R.T.mu.Unlock()
+		if o != nil && o["k"] == "blob" {
+			if c, ok := o["d"].(string); ok {
+				if _, have := tr.Contents[c]; have {
+					out = append(out, c)
+				}
+			}
+		}
+	}
+	return out
 }
